@@ -30,14 +30,17 @@ def census_rule(ctx):
     m = ctx.model
     for (q, val, line, mod, aug) in census.attr_stores(m, 'pendingCommands'):
         ctx.instance('C06.R1', ('store', q))
-        if q.split('.')[-1] != 'resetState':
+        if not census.only_reached_through(m, q, ('ExcludeRegionState.resetState',)):
             ctx.report('C06.R1', q, 'pendingCommands = ...', 'the pending map is replaced outside resetState',
                        file=m.relpath(m.paths[mod]), line=line)
     allowed = {'_processExtendedGcodeEntry': ('pop', '[]=', 'setdefault'), '_processPendingCommands': ('clear',)}
     for (q, meth, line) in census.method_calls_on_attr(m, 'pendingCommands', MUTATORS):
         ctx.instance('C06.R1', ('mutate', q, meth))
-        fn = q.split('.')[-1]
-        if meth not in allowed.get(fn, ()):
+        ok = False
+        for owner, meths in allowed.items():
+            if meth in meths and census.only_reached_through(m, q, ('ExcludeRegionState.' + owner,)):
+                ok = True
+        if not ok:
             ctx.report('C06.R1', q, 'pendingCommands.%s' % meth,
                        'the pending map is mutated outside its owner functions', line=line)
 
